@@ -230,12 +230,9 @@ Variable fval : string -> F.
 Theorem gen_index_dimensions_expression_equiv : forall e,
   index_dimensions_expression (up_dexpr fval e) = map up_td (G.index_dims_expr e).
 Proof.
-  assert (Hmerge : forall (A B : pydict string TensorDimension),
-    fold_left (fun indexes '(index_i, dimension) =>
-       if negb (dict_mem String.eqb index_i indexes) then
-         let d := dict_set String.eqb index_i dimension indexes in d else indexes) B A
-    = fold_left ins B A).
-  { intros. apply fold_left_ext. intros a [k v]. reflexivity. }
+  assert (Hmerge : forall (f : pydict string TensorDimension -> string * TensorDimension -> pydict string TensorDimension) A B,
+    (forall a kv, f a kv = ins a kv) -> fold_left f B A = fold_left ins B A).
+  { intros f A B H. now apply fold_left_ext. }
   unfold G.index_dims_expr.
   induction e as [v|h|t|l IHl r IHr|l IHl r IHr|i x IH]; cbn [up_dexpr index_dimensions_expression G.expr_occs].
   - reflexivity.
@@ -244,11 +241,14 @@ Proof.
     cbv zeta.
     transitivity (fold_left ins (map (fun ix : Z * string => (snd ix, MkTensorDimension name (fst ix))) (py_enumerate idx))
                     ([] : pydict string TensorDimension)).
-    { rewrite fold_left_map'. apply fold_left_ext. intros a [i xx]. reflexivity. }
+    { rewrite fold_left_map'. apply fold_left_ext. intros a [i xx]. unfold ins. cbv zeta. cbn [fst snd].
+      destruct (dict_mem String.eqb xx a); reflexivity. }
     unfold py_enumerate. pose proof (enumerate_occs name idx 0) as HE. cbn [Z.of_nat] in HE. rewrite HE, fold_ins. cbn [app map].
     rewrite !up_td_map. apply first_wins_map.
-  - cbv zeta. rewrite Hmerge, IHl, IHr. apply merge_equiv.
-  - cbv zeta. rewrite Hmerge, IHl, IHr. apply merge_equiv.
+  - cbv zeta. rewrite Hmerge by (intros a [k v]; unfold ins; cbv zeta; destruct (dict_mem String.eqb k a); reflexivity).
+    rewrite IHl, IHr. apply merge_equiv.
+  - cbv zeta. rewrite Hmerge by (intros a [k v]; unfold ins; cbv zeta; destruct (dict_mem String.eqb k a); reflexivity).
+    rewrite IHl, IHr. apply merge_equiv.
   - apply IH.
 Qed.
 
@@ -261,7 +261,8 @@ Proof.
   cbn [de_assignment_target de_assignment_expression M.a_target M.a_expr]. cbv zeta.
   rewrite !gen_index_dimensions_expression_equiv. unfold G.index_dims_expr. cbn [G.expr_occs].
   transitivity (fold_left ins (map up_td (G.first_wins [] (G.expr_occs e))) (map up_td (G.first_wins [] (G.tensor_occs t)))).
-  { apply fold_left_ext. intros x [k v]. reflexivity. }
+  { apply fold_left_ext. intros x [k v]. unfold ins. cbv zeta.
+    destruct (dict_mem String.eqb k x); reflexivity. }
   apply merge_equiv.
 Qed.
 End IndexDimensions.
